@@ -6,7 +6,7 @@
 set -u
 D=$(readlink -f "$1")
 W=/tmp/confirm-wt-$$
-T=/tmp/confirm-target   # shared build cache between confirmations, removed by the caller
+T=${CONFIRM_TARGET:-/tmp/confirm-target}   # build cache shared between confirmations, removed by the caller
 git -C /repo worktree add -q --detach "$W" HEAD || exit 2
 cleanup() { git -C /repo worktree remove --force "$W" >/dev/null 2>&1; }
 trap cleanup EXIT
